@@ -403,7 +403,7 @@ def failingCalls : Nat → List Ev
   | n + 1 => .enter 1 1 .native :: .nativeRet false :: failingCalls n
 
 theorem failing_calls_clean (n : Nat) (s : St) (hhost : inLoop s = false)
-    (hr : s.vm.base ≤ s.vm.regs) (hw : s.vm.regs - s.vm.base < 256) :
+    (hr : s.vm.base ≤ s.vm.regs) (hw : s.vm.regs - s.vm.base + 9 ≤ 255) :
     (run (failingCalls n) s).vm.regs = s.vm.regs ∧ (run (failingCalls n) s).conts = s.conts ∧
     (run (failingCalls n) s).vm.base = s.vm.base ∧ (run (failingCalls n) s).vm.stack = s.vm.stack := by
   induction n generalizing s with
@@ -411,12 +411,16 @@ theorem failing_calls_clean (n : Nat) (s : St) (hhost : inLoop s = false)
   | succ n ih =>
     have h2 : step (.nativeRet false) (step (.enter 1 1 .native) s) =
         ⟨truncate (nextRegister s.vm) { s.vm with regs := s.vm.regs + 1 + 1 + 1 }, s.conts⟩ := by
-      simp [step, inLoop, enter, enterWith, raiseGo_host s hhost]
+      have h8 : s.vm.regs - s.vm.base + 8 ≤ 255 := by omega
+      have h9 : s.vm.regs + 1 - s.vm.base + 8 ≤ 255 := by omega
+      simp [step, inLoop, enterChecked, fitsEnter, nextRegisterOk, h8, h9, enter, enterWith,
+        raiseGo_host s hhost]
     have hrun : run (failingCalls (n + 1)) s =
         run (failingCalls n) (step (.nativeRet false) (step (.enter 1 1 .native) s)) := by
       simp [failingCalls, run]
     rw [hrun, h2]
-    have hw1 : (s.vm.regs - s.vm.base) % 256 = s.vm.regs - s.vm.base := Nat.mod_eq_of_lt hw
+    have hw1 : (s.vm.regs - s.vm.base) % 256 = s.vm.regs - s.vm.base :=
+      Nat.mod_eq_of_lt (by omega)
     have hregs : (truncate (nextRegister s.vm) { s.vm with regs := s.vm.regs + 1 + 1 + 1 }).regs
         = s.vm.regs := by
       simp [truncate, nextRegister, hw1]; omega
@@ -427,47 +431,62 @@ theorem failing_calls_clean (n : Nat) (s : St) (hhost : inLoop s = false)
     refine ⟨by rw [this.1, hregs], this.2.1, by rw [this.2.2.1]; simp [truncate],
       by rw [this.2.2.2]; simp [truncate]⟩
 
-example : snapshot (run (failingCalls 20) init).vm = (0, 0, 0, 0, 0) := by decide
+example : snapshot (run (failingCalls 5) init).vm = (0, 0, 0, 0, 0) := by decide
 
 /-- `run_*_op` through `call_overridden_op_N` on a native overload that returns `Err` is clean
 (F-C07-3 before fix d4834c0: residue `pre + 1 + args`). -/
 theorem opcall_native_err_clean (s : St) (pre args : Nat) (hhost : inLoop s = false)
-    (hc : Consistent s.vm) (hw : s.vm.regs - s.vm.base < 256) :
+    (hc : Consistent s.vm) (hfit : fitsOp s.vm pre = true) :
     let s' := step (.nativeRet false) (step (.enterOp pre args .native) s)
     Clean s.vm s'.vm ∧ s'.conts = s.conts := by
   have hr := hc.regs
-  have hw1 : (s.vm.regs - s.vm.base) % 256 = s.vm.regs - s.vm.base := Nat.mod_eq_of_lt hw
-  simp [step, inLoop, enterOp, enterWith, raiseGo_host s hhost, Clean, truncate, nextRegister, hw1]
+  have h8 : s.vm.regs - s.vm.base + 8 ≤ 255 := by
+    simp [fitsOp, nextRegisterOk] at hfit; have := hfit.1; omega
+  have hw1 : (s.vm.regs - s.vm.base) % 256 = s.vm.regs - s.vm.base := Nat.mod_eq_of_lt (by omega)
+  simp [step, inLoop, enterOpChecked, hfit, enterOp, enterWith, raiseGo_host s hhost, Clean, truncate,
+    nextRegister, hw1]
   omega
 
 /-- … and the same when `call_callable` fails before anything runs. -/
 theorem opcall_setup_fail_clean (s : St) (pre args : Nat) (hhost : inLoop s = false)
-    (hc : Consistent s.vm) (hw : s.vm.regs - s.vm.base < 256) :
+    (hc : Consistent s.vm) :
     let s' := step (.enterOp pre args .fail) s
     Clean s.vm s'.vm ∧ s'.conts = s.conts := by
   have hr := hc.regs
-  have hw1 : (s.vm.regs - s.vm.base) % 256 = s.vm.regs - s.vm.base := Nat.mod_eq_of_lt hw
-  simp [step, enterOp, enterWith, raiseGo_host s hhost, Clean, truncate, nextRegister, hw1]
-  omega
+  by_cases hfit : fitsOp s.vm pre = true
+  · have h8 : s.vm.regs - s.vm.base + 8 ≤ 255 := by
+      simp [fitsOp, nextRegisterOk] at hfit; have := hfit.1; omega
+    have hw1 : (s.vm.regs - s.vm.base) % 256 = s.vm.regs - s.vm.base := Nat.mod_eq_of_lt (by omega)
+    simp [step, enterOpChecked, hfit, enterOp, enterWith, raiseGo_host s hhost, Clean, truncate,
+      nextRegister, hw1]
+    omega
+  · simp [step, enterOpChecked, hfit, raiseGo_host s hhost, Clean]
 
 /-- `run_unary_op` / `run_binary_op` / `run_read_op` / `run_write_op` whose operation is performed
 natively: clean when it succeeds … -/
-theorem op_direct_ok_clean (s : St) (pre : Nat) (hc : Consistent s.vm)
-    (hw : s.vm.regs - s.vm.base < 256) :
+theorem op_direct_ok_clean (s : St) (pre : Nat) (hhost : inLoop s = false) (hc : Consistent s.vm) :
     Clean s.vm (step (.enterDirect pre true) s).vm := by
   have hr := hc.regs
-  simp [step, enterDirect, Clean, truncate, nextRegister, Nat.mod_eq_of_lt hw]
-  omega
+  by_cases hok : nextRegisterOk s.vm = true
+  · have h8 : s.vm.regs - s.vm.base + 8 ≤ 255 := by simpa [nextRegisterOk] using hok
+    simp [step, enterDirectChecked, hok, enterDirect, Clean, truncate, nextRegister,
+      Nat.mod_eq_of_lt (show s.vm.regs - s.vm.base < 256 by omega)]
+    omega
+  · simp [step, enterDirectChecked, hok, raiseGo_host s hhost, Clean]
 
 /-- … and clean when it fails (F-C07-3 before fix d4834c0: the `pre` operand registers stayed). -/
 theorem op_direct_err_clean (s : St) (pre : Nat) (hhost : inLoop s = false)
-    (hc : Consistent s.vm) (hw : s.vm.regs - s.vm.base < 256) :
+    (hc : Consistent s.vm) :
     Clean s.vm (step (.enterDirect pre false) s).vm ∧
     (step (.enterDirect pre false) s).conts = s.conts := by
   have hr := hc.regs
-  have hw1 : (s.vm.regs - s.vm.base) % 256 = s.vm.regs - s.vm.base := Nat.mod_eq_of_lt hw
-  simp [step, enterDirect, raiseGo_host s hhost, Clean, truncate, nextRegister, hw1]
-  omega
+  by_cases hok : nextRegisterOk s.vm = true
+  · have h8 : s.vm.regs - s.vm.base + 8 ≤ 255 := by simpa [nextRegisterOk] using hok
+    have hw1 : (s.vm.regs - s.vm.base) % 256 = s.vm.regs - s.vm.base := Nat.mod_eq_of_lt (by omega)
+    simp [step, enterDirectChecked, hok, enterDirect, raiseGo_host s hhost, Clean, truncate,
+      nextRegister, hw1]
+    omega
+  · simp [step, enterDirectChecked, hok, raiseGo_host s hhost, Clean]
 
 /-- Overload case of F-C07-3: `run_binary_op(Add, o, 1)` on a fresh VM where `o`'s `@+` is a Koto
 function that throws. The body of `run_binary_op` holds 3 registers and runs the overload in a
@@ -501,7 +520,7 @@ def failingOps : Nat → List Ev
 /-- Any number of failing operator calls leaves the value stack as it was (regression statement
 for F-C07-3: before the fix the residue was `3 * n`, and after 86 calls `next_register()` wrapped). -/
 theorem failing_ops_clean (n : Nat) (s : St) (hhost : inLoop s = false)
-    (hr : s.vm.base ≤ s.vm.regs) (hw : s.vm.regs - s.vm.base < 256) :
+    (hr : s.vm.base ≤ s.vm.regs) (hw : s.vm.regs - s.vm.base + 8 ≤ 255) :
     (run (failingOps n) s).vm.regs = s.vm.regs ∧ (run (failingOps n) s).conts = s.conts ∧
     (run (failingOps n) s).vm.base = s.vm.base ∧ (run (failingOps n) s).vm.stack = s.vm.stack := by
   induction n generalizing s with
@@ -509,11 +528,12 @@ theorem failing_ops_clean (n : Nat) (s : St) (hhost : inLoop s = false)
   | succ n ih =>
     have h2 : step (.enterDirect 3 false) s =
         ⟨truncate (nextRegister s.vm) { s.vm with regs := s.vm.regs + 3 }, s.conts⟩ := by
-      simp [step, enterDirect, raiseGo_host s hhost]
+      simp [step, enterDirectChecked, nextRegisterOk, hw, enterDirect, raiseGo_host s hhost]
     have hrun : run (failingOps (n + 1)) s = run (failingOps n) (step (.enterDirect 3 false) s) := by
       simp [failingOps, run]
     rw [hrun, h2]
-    have hw1 : (s.vm.regs - s.vm.base) % 256 = s.vm.regs - s.vm.base := Nat.mod_eq_of_lt hw
+    have hw1 : (s.vm.regs - s.vm.base) % 256 = s.vm.regs - s.vm.base :=
+      Nat.mod_eq_of_lt (by omega)
     have hregs : (truncate (nextRegister s.vm) { s.vm with regs := s.vm.regs + 3 }).regs
         = s.vm.regs := by
       simp [truncate, nextRegister, hw1]; omega
@@ -524,10 +544,12 @@ theorem failing_ops_clean (n : Nat) (s : St) (hhost : inLoop s = false)
     refine ⟨by rw [this.1, hregs], this.2.1, by rw [this.2.2.1]; simp [truncate],
       by rw [this.2.2.2]; simp [truncate]⟩
 
-/-- Why the theorems carry the hypothesis `regs - base < 256`: `next_register()` is a `u8`. On a VM
-whose window holds 258 live registers (the state that 86 leaking calls produced before the fixes)
-a host-initiated call takes register 2 as its result register, its frame aliases live registers and
-its final `truncate_registers` cuts the value stack to 2. -/
+/-- Why the register check of fix b752efa matters (and why the theorems about the *unchecked*
+prologue `runEntry` carry a no-wrap hypothesis): register ids are `u8`. If an entry were started on
+a window of 258 live registers without the check, it would take register 2 as its result register,
+its frame would alias live registers and its final `truncate_registers` would cut the value stack
+to 2. With the check (`enterChecked`) such an entry fails before it pushes anything:
+`entry_too_full_is_clean_error`. -/
 theorem residue_wraps_register_numbering (s : St) (hconts : s.conts = []) (hstack : s.vm.stack = [])
     (hbase : s.vm.base = 0) (hregs : s.vm.regs = 258) :
     nextRegister s.vm = 2 ∧ (runEntry 1 1 (.koto 1) [.newFrame 3, .ret] s).vm.regs = 2 := by
@@ -537,6 +559,71 @@ theorem residue_wraps_register_numbering (s : St) (hconts : s.conts = []) (hstac
   subst hconts
   simp [runEntry, runUntil, enter, enterWith, step, inLoop, callKoto, pushFrame, nextRegister, hregs,
     hbase, hstack, modTop, popTo, truncate]
+
+/-- An entry whose register check fails (`next_register()` reports "too many registers are in
+use", fixes b752efa / ea3163c) changes nothing and hands the error to its caller. -/
+theorem entry_too_full_is_clean_error (s : St) (pre args : Nat) (c : Callee) (evs : List Ev)
+    (hhost : inLoop s = false) (hfull : fitsEnter s.vm pre = false) :
+    runEntryChecked pre args c evs s = s := by
+  simp [runEntryChecked, enterChecked, hfull, raiseGo_host s hhost, runUntil_host]
+
+/-- When the check passes, the checked entry is the prologue the `entry_*` theorems speak about,
+and their no-wrap hypotheses hold. -/
+theorem runEntryChecked_eq (s : St) (pre args : Nat) (c : Callee) (evs : List Ev)
+    (hfit : fitsEnter s.vm pre = true) :
+    runEntryChecked pre args c evs s = runEntry pre args c evs s ∧
+    s.vm.regs - s.vm.base + pre + 8 ≤ 255 + (s.vm.base - s.vm.regs) := by
+  refine ⟨by simp [runEntryChecked, runEntry, enterChecked, hfit], ?_⟩
+  simp [fitsEnter, nextRegisterOk] at hfit
+  omega
+
+/-- **entry_clean, unconditional in the register window** (the statement for the code as it is
+since fixes b752efa / ea3163c): every `run` / `call_and_run_function` through a Koto callee started
+by host or native code on a consistent VM — whatever the size of the register window, whatever the
+execution does, however it ends — restores the call stack, `register_base`, `min_frame_registers`,
+the module placeholders and `registers.len()` exactly, and leaves no builder behind. -/
+theorem entry_checked_clean (s : St) (pre args a : Nat) (evs : List Ev)
+    (hhost : inLoop s = false) (hc : Consistent s.vm)
+    (hex : Exited s (runEntryChecked pre args (.koto a) evs s)) :
+    let s' := runEntryChecked pre args (.koto a) evs s
+    s'.vm.regs = s.vm.regs ∧ CleanFrames s.vm s'.vm ∧ s'.vm.seq ≤ s.vm.seq ∧ s'.vm.str ≤ s.vm.str ∧
+    s'.conts = s.conts := by
+  intro s'
+  have hr := hc.regs
+  by_cases hfit : fitsEnter s.vm pre = true
+  · have he := runEntryChecked_eq s pre args (.koto a) evs hfit
+    have hw : s.vm.regs - s.vm.base + pre < 256 := by have := he.2; omega
+    have hs' : s' = runEntry pre args (.koto a) evs s := he.1
+    have hex' : Exited s (runEntry pre args (.koto a) evs s) := by rw [← he.1]; exact hex
+    rw [hs']
+    have h1 := entry_regs_restored s pre args a evs hhost hc hw hex'
+    have h2 := entry_clean_frames s pre args a evs hhost hc hex'
+    have h3 := entry_no_builder_residue s pre args a evs hhost hc hw hex'
+    exact ⟨h1, h2.1, h3.1, h3.2, h2.2.1⟩
+  · have hfull : fitsEnter s.vm pre = false := by simpa using hfit
+    have : s' = s := entry_too_full_is_clean_error s pre args (.koto a) evs hhost hfull
+    rw [this]
+    exact ⟨rfl, ⟨rfl, rfl, rfl, rfl⟩, Nat.le_refl _, Nat.le_refl _, rfl⟩
+
+/-! ## F-C07-4: a `yield` at the top level of a chunk leaves the chunk's frame behind -/
+
+/-- `compile_and_run("yield 1")` on a fresh runtime: the run *succeeds* with the yielded value, the
+registers are truncated, but the chunk's frame stays on the call stack (H1 reports
+`(0, 1, 0, 0, 0)`), and a second such run adds another one. `Yield` is not an event of `Ev`: all
+`entry_*` theorems are about executions in which no frame other than a generator's executes `Yield`
+(generators run in their own VM, `genResume`). -/
+theorem run_yield_not_clean :
+    let s1 := yieldAtTop (run [.newFrame 4] (enterChecked 0 0 (.koto 0) init))
+    let s2 := yieldAtTop (run [.newFrame 4] (enterChecked 0 0 (.koto 0) s1))
+    s1.conts = [] ∧ ¬ Clean init.vm s1.vm ∧ snapshot s1.vm = (0, 1, 0, 0, 0) ∧
+    snapshot s2.vm = (0, 2, 0, 0, 0) := by decide
+
+/-- A failed run after such a run is clean relative to *its own* start (the leftover frame is not
+touched, nothing is added). -/
+theorem failed_run_after_yield_example :
+    let s1 := yieldAtTop (run [.newFrame 4] (enterChecked 0 0 (.koto 0) init))
+    let s2 := runEntryChecked 0 0 (.koto 0) [.newFrame 4, .seqStart, .call 2 0, .newFrame 1, .raise true] s1
+    Exited s1 s2 ∧ Clean s1.vm s2.vm := by decide
 
 /-! ## F-C07-2 (repaired by fix 97373d1): builders are unwound with their frames -/
 
@@ -771,15 +858,31 @@ theorem step_rootExports (ev : Ev) (st : St) :
     rootExports (step ev st) = rootExports st ∨
     ∃ k, ev = .exportVal k ∧ rootExports (step ev st) = rootExports st ++ [k] := by
   cases ev with
-  | enter pre args c => exact Or.inl (enterWith_rootExports true pre args c st)
-  | enterOp pre args c => exact Or.inl (enterWith_rootExports true pre args c st)
+  | enter pre args c =>
+    left
+    show rootExports (enterChecked pre args c st) = _
+    unfold enterChecked
+    split
+    · exact enterWith_rootExports true pre args c st
+    · rw [raiseGo_rootExports]; rfl
+  | enterOp pre args c =>
+    left
+    show rootExports (enterOpChecked pre args c st) = _
+    unfold enterOpChecked
+    split
+    · exact enterWith_rootExports true pre args c st
+    · rw [raiseGo_rootExports]; rfl
   | enterDirect pre ok =>
     left
-    cases ok with
-    | true => simp [step, enterDirect, rootExports, truncate]
-    | false =>
-      simp only [step, enterDirect, Bool.false_eq_true, if_false]; rw [raiseGo_rootExports]
-      simp [rootExports, truncate]
+    show rootExports (enterDirectChecked pre ok st) = _
+    unfold enterDirectChecked
+    split
+    · cases ok with
+      | true => simp [enterDirect, rootExports, truncate]
+      | false =>
+        simp only [enterDirect, Bool.false_eq_true, if_false]; rw [raiseGo_rootExports]
+        simp [rootExports, truncate]
+    · rw [raiseGo_rootExports]; rfl
   | nested a b =>
     left
     by_cases hfb : st.vm.regs - st.vm.base > 255
